@@ -4,7 +4,7 @@ set -e
 cd "$(dirname "$(readlink -f "$0")")"
 export GOFLAGS=-mod=mod GOPROXY=off GOSUMDB=off GOTOOLCHAIN=local CGO_ENABLED=1 TZ=UTC
 mkdir -p bin work evidence replay
-go build ./... 
+go build -tags verif ./...
 go vet -tags verif ./props >/dev/null 2>&1 || true
 go test -c -tags verif -o bin/props.test ./props
 go test -c -tags verif -race -o bin/props.race.test ./props
